@@ -103,6 +103,10 @@ def interp(act, n, x, modify, delete, fresh=None):
         return None
     if k == 'reject':
         raise HttpRequestRejected(status_code=act[1], reason=act[2], body=act[3])
+    if k == 'rejecth':
+        # rejection that chooses response HEADERS too (a redirecting / captive-portal plugin): outside the Coq model
+        # (AReject has no headers), judged by the implementation-side oracle only
+        raise HttpRequestRejected(status_code=act[1], reason=act[2], body=act[3], headers={bytes(a): bytes(b) for a, b in act[4]})
     if k == 'raise':
         raise mk_exc(act[1])
     if k == 'after':
@@ -138,7 +142,8 @@ def make_plugin_class(table):
         try:
             r = interp(act, count(self, hk), x, modify, delete, fresh)
         except Exception as e:
-            RETS[i] = ('raise', type(e).__name__, getattr(e, 'status_code', None), getattr(e, 'reason', None), getattr(e, 'body', None))
+            RETS[i] = ('raise', type(e).__name__, getattr(e, 'status_code', None), getattr(e, 'reason', None), getattr(e, 'body', None),
+                       dict(getattr(e, 'headers', None) or {}))
             raise
         RETS[i] = ('none',) if r is None else ('value', canon(r))
         return r
